@@ -4579,3 +4579,123 @@ def ob_compatibility_state(ctx, n_jobs):
             res.status, res.detail = 'inconclusive', f'vacuous: accept={saw_a} reject={saw_r}'
     res.time = time.time() - t0
     return res
+
+
+# ---------------------------------------------------------------------------------------------------------------------
+# C01: relation pinning (strict lock: contiguity, departure / arrival anchoring, vehicle)
+
+def ob_lock_rule(ctx, m, position):
+    """C01 (relation pinning): `LockingConstraint::evaluate` (real MIR incl. `Rule::can_insert / can_insert_after /
+    can_insert_before`) for a strict lock of `m` jobs with the given position on a tour that satisfies the lock - the locked
+    jobs contiguous and in order, directly after the departure (position Departure / Fixed) and / or directly before the
+    arrival (Arrival / Fixed), a symbolic number (0..2) of other jobs before and after where the position allows them.  A job
+    that is NOT part of the lock, offered at a symbolic leg, is admitted exactly when the tour with the job inserted still
+    satisfies the lock.  Route level: a locked job is admitted to a vehicle exactly when the lock's condition holds for it."""
+    from symex import AMapV, DynV
+    POS = {'any': 0, 'departure': 1, 'arrival': 2, 'fixed': 3}
+    name = f'lock_rule[jobs={m},{position}]'
+    res = Result(name)
+    res.bounds = f'strict lock of {m} jobs, position {position}; closed tour = start, 0..2 other jobs (where allowed), the locked jobs in order, 0..2 other jobs (where allowed), end; insertion leg symbolic'
+    t0 = time.time()
+    ev = ctx.prog.find_method('LockingConstraint', 'evaluate')
+    if len(ev) != 1:
+        raise Inconclusive('LockingConstraint::evaluate not found')
+
+    class Env(drivers.Env):
+        symbolic_maps = True
+
+        def override(self, engine, st, callee, args, dest_ty):
+            if callee.endswith('Activity::retrieve_job'):
+                return NotImplemented
+            if callee.endswith('Multi::roots'):
+                return mk_option(False, ty=dest_ty)
+            return super().override(engine, st, callee, args, dest_ty)
+
+        def dyn_closure(self, engine, st, tag, args):
+            if tag == 'lock_condition':
+                return BV(self.condition_holds)
+            return super().dyn_closure(engine, st, tag, args)
+
+    env = Env(ctx.prog, ctx.layout, 8)
+    eng = symex.Engine(ctx.prog, ctx.layout, env)
+    z = FV.const(0)
+
+    def body(st):
+        env.assumptions.clear()
+        env.condition_holds = z3.Bool('lock_condition_holds_for_the_vehicle')
+        mk_single = lambda nm: ArcV(Cell(env.struct('jobs::Single', places=VecV([]), dimens=StateV({'job_id': Opaque(f'"{nm}"')}))))
+        jobv = lambda s_: EnumV('jobs::Job', 0, {0: [s_]})
+        locked = [mk_single(f'locked{i}') for i in range(m)]
+        nb, na = z3.Int('others_before'), z3.Int('others_after')
+        before = eng.choose(st, [(nb == i, i) for i in range(0, 3)]) if position in ('any', 'arrival') else 0
+        after = eng.choose(st, [(na == i, i) for i in range(0, 3)]) if position in ('any', 'departure') else 0
+        seq = ['start'] + [f'o{i}' for i in range(before)] + [f'L{i}' for i in range(m)] + [f'p{i}' for i in range(after)] + ['end']
+        singles = {f'L{i}': locked[i] for i in range(m)}
+        for lab in seq:
+            if lab[0] in 'op':
+                singles[lab] = mk_single(lab)
+        acts = [env.activity(IV(0), z, z, FV.max_value(), z, z, has_job=lab in singles, job=singles.get(lab)) for lab in seq]
+        actor = env.actor(IV(0), z, IV(0), FV.const(1000))
+        rc = env.route_ctx(actor, acts, True)
+        cond = ArcV(Cell(DynV('lock_condition')))
+        index = env.struct('locked_jobs::JobIndex', first=jobv(locked[0]), last=jobv(locked[-1]), jobs=AMapV([(jobv(s_), UnitV()) for s_ in locked], True))
+        rule = ArcV(Cell(env.struct('locked_jobs::Rule', condition=cond, position=EnumV('domain::LockPosition', POS[position], {}), index=index)))
+        constraint = env.struct('locked_jobs::LockingConstraint', code=Agg('struct', [IV(13, 'i32')], 'ViolationCode'),
+                                conditions=AMapV([(jobv(s_), cond) for s_ in locked]), rules=AMapV([(actor, VecV([rule]))]))
+        leg = z3.Int('insertion_leg')
+        p = eng.choose(st, [(leg == i, i) for i in range(len(seq) - 1)])
+        target = env.activity(IV(0), z, z, FV.max_value(), z, z, job=mk_single('new'))
+        actx = env.struct('context::ActivityContext', index=IV(p), prev=RefV(Cell(acts[p]), 0), target=RefV(Cell(target), 0),
+                          next=mk_option(True, RefV(Cell(acts[p + 1]), 0), ty='Option<&Activity>'))
+        sol = RefV(Cell(Opaque('solution_ctx')), 0)
+        move = EnumV('context::MoveContext', 1, {1: [sol, RefV(Cell(rc), 0), RefV(Cell(actx), 0)]})
+        v_act = eng.exec_fn(st, ev[0], [RefV(Cell(constraint), 0), RefV(Cell(move), 0)])
+        # route level: a locked job / an unrelated job offered to this vehicle
+        mv_locked = EnumV('context::MoveContext', 0, {0: [sol, RefV(Cell(rc), 0), RefV(Cell(jobv(locked[0])), 0)]})
+        mv_free = EnumV('context::MoveContext', 0, {0: [sol, RefV(Cell(rc), 0), RefV(Cell(jobv(mk_single('free'))), 0)]})
+        v_locked = eng.exec_fn(st, ev[0], [RefV(Cell(constraint), 0), RefV(Cell(mv_locked), 0)])
+        v_free = eng.exec_fn(st, ev[0], [RefV(Cell(constraint), 0), RefV(Cell(mv_free), 0)])
+        return (seq, p, v_act, v_locked, v_free)
+
+    def satisfies(seq):
+        idx = [i for i, lab in enumerate(seq) if lab.startswith('L')]
+        if idx != list(range(idx[0], idx[0] + m)) or [seq[i] for i in idx] != [f'L{i}' for i in range(m)]:
+            return False
+        if position in ('departure', 'fixed') and idx[0] != 1:
+            return False
+        if position in ('arrival', 'fixed') and idx[-1] != len(seq) - 2:
+            return False
+        return True
+
+    paths = eng.explore(body, max_paths=20000)
+    res.paths = len(paths)
+    res.functions |= eng.functions_used
+    saw_a = saw_r = False
+    for st, out in paths:
+        if out is None:
+            if not no_panic(ctx, res, env, st, what=name):
+                break
+            continue
+        seq, p, v_act, v_locked, v_free = out
+        new_seq = seq[:p + 1] + ['new'] + seq[p + 1:]
+        ok = satisfies(new_seq)
+        rej = v_act.variant()
+        problems = []
+        if rej is None or bool(rej) == ok:
+            problems.append(f'job offered at leg {p} of {seq} is {"rejected" if rej else "admitted"}; the lock ({position}) is {"kept" if ok else "broken"} by that insertion')
+        claim = z3.And(z3.BoolVal(not problems), (v_locked.discr == 0) == env.condition_holds, v_free.discr == 0)
+        if not decide_claim(ctx, res, env, st, claim, what=f'{name}: ' + ('; '.join(problems) or 'route level: locked job admitted <=> the lock condition holds for the vehicle')):
+            if res.status == 'violated' and res.model is not None:
+                res.case = {'kind': 'lock_rule', 'position': position, 'locked': m, 'tour': seq, 'leg': p,
+                            'condition_holds': bool(z3.is_true(res.model.eval(env.condition_holds, model_completion=True)))}
+            break
+        if not no_panic(ctx, res, env, st, what=name):
+            break
+        saw_a = saw_a or ok
+        saw_r = saw_r or not ok
+    if res.status == 'holds':
+        res.witnesses = int(saw_a) + int(saw_r)
+        if not (saw_r and (saw_a or position == 'fixed')):
+            res.status, res.detail = 'inconclusive', f'vacuous: admit={saw_a} reject={saw_r}'
+    res.time = time.time() - t0
+    return res
